@@ -199,6 +199,18 @@ def build(sp, omit=(), labels=None, originals=None, into=None):
     for name, table, mk in (('pot', s.potential, mk_pot), ('clo', s.closure, mk_clo), ('om', s.omega, mk_om)):
         items = [(key, spec) for key, spec in sp[name].items() if '%s:%s' % (name, key) not in omit]
         done = set()
+        pre = {}
+        if name == 'om' and (spec_hash(sp) // 7) % 3 == 0:
+            # tabulated omegas built FIRST, each from the same float64 work array refilled in place, and assigned afterwards (a
+            # script that computes the block form factors into one buffer): an omega object holds the numbers it was given
+            arr = [(key, spec) for key, spec in items if spec.get('t') == 'ARR']
+            if arr:
+                work = np.empty(len(arr[0][1]['w']), dtype=float)
+                for key, spec in arr:
+                    if len(spec['w']) == len(work):
+                        work[:] = spec['w']
+                        pre[key] = O.FromArray(work)
+                work[:] = -1.0
         if st == 'grouped' and len(items) == len(sp[name]) and len(items) > 1:
             # sys.closure[sys.types, sys.types] = PY() followed by the exceptions, as the tutorials write it
             first = items[0][1]
@@ -219,7 +231,7 @@ def build(sp, omit=(), labels=None, originals=None, into=None):
                 # other order (sys.potential['B','A'].rcut = 2.5): both orders are one and the same entry
                 late = {k: spec[k] for k in ('sigma', 'rcut', 'shift') if spec.get(k) not in (None, False)}
                 spec = {k: v for k, v in spec.items() if k not in late}
-            obj = mk(spec) if name != 'clo' else mk_clo(spec, spec_hash(sp) // 10 + len(done) + sp['types'].index(a) + 2 * sp['types'].index(b))
+            obj = pre.pop(key) if key in pre else (mk(spec) if name != 'clo' else mk_clo(spec, spec_hash(sp) // 10 + len(done) + sp['types'].index(a) + 2 * sp['types'].index(b)))
             if originals is not None:
                 originals.append(obj)
             table[lab(a), lab(b)] = obj
